@@ -352,7 +352,11 @@ func (doc *Document) Warnings() (warnings Warnings) {
 			context.Family = family
 		}
 
-		Filter(node, doc, func(node Node) (newNode Node, traverseChildren bool) {
+		// This must only look at the nodes. Filter would also copy every node
+		// into the document it is given, which adds an empty family to this
+		// document for each family that has a husband, wife or child.
+		var walk func(node Node)
+		walk = func(node Node) {
 			if warner, ok := node.(Warner); ok {
 				for _, warning := range warner.Warnings() {
 					warning.SetContext(context)
@@ -360,8 +364,12 @@ func (doc *Document) Warnings() (warnings Warnings) {
 				}
 			}
 
-			return node, true
-		})
+			for _, child := range node.Nodes() {
+				walk(child)
+			}
+		}
+
+		walk(node)
 	}
 
 	return
